@@ -810,7 +810,31 @@ def confirm_struct(w):
     return v
 
 
+def assumed_rank_verdict():
+    """One Fortran specific per admissible rank of an assumed-rank argument: `dimension(..)` with F_assumed_rank_min..max
+    (both inclusive, docs: "the minimum / maximum rank") gives the specifics <name>_<r>d for every rank in the range, all
+    listed by the generic of the C++ name."""
+    for lo, hi in ((0, 3), (1, 2), (0, 7), (2, 2)):
+        lib = {"library": "lib", "language": "c", "options": {"wrap_python": False, "wrap_lua": False,
+                                                              "F_assumed_rank_min": lo, "F_assumed_rank_max": hi},
+               "declarations": [{"decl": "int qfa(const int *values +dimension(..), int nvalues)"}]}
+        try:
+            names = emitted_names(pipeline.run(lib))
+        except Exception as ex:
+            return "generation fails for ranks %d..%d: %s: %s" % (lo, hi, type(ex).__name__, str(ex)[:150])
+        want = sorted("qfa_%dd" % r for r in range(lo, hi + 1))
+        got = sorted(n for n in names["f_spec"] if n.startswith("qfa"))
+        if got != want:
+            return "assumed-rank argument with ranks %d..%d: expected the specifics %r, emitted %r" % (lo, hi, want, got)
+        listed = sorted(names["f_generic"].get("qfa", []))
+        if listed != want:
+            return "assumed-rank argument with ranks %d..%d: the generic qfa lists %r, expected %r" % (lo, hi, listed, want)
+    return None
+
+
 def confirm(w):
+    if w.get("kernel") == "assumed-rank":
+        return assumed_rank_verdict()
     if w.get("kernel") == "struct-suffix":
         return struct_suffix_verdict()
     if w.get("kernel") == "un_camel":
@@ -864,6 +888,9 @@ def main():
     sv = struct_suffix_verdict()
     if sv:
         viol.append({"kernel": "struct-suffix", "what": sv, "_vkey": "struct-suffix"})
+    av = assumed_rank_verdict()
+    if av:
+        viol.append({"kernel": "assumed-rank", "what": av, "_vkey": "assumed-rank"})
     for r in recs:
         if r["what"]:
             viol.append({"kernel": "structure", "scope": r["scope"], "funcs": r["funcs"], "what": r["what"],
